@@ -1,5 +1,11 @@
 // C18: ticket spinlock, used from fibers, never yielding while held. Counter preset near 2^32 to cross the wrap.
 #include "fb_common.h"
+// under TSan the harness-side occupancy counter must not itself create happens-before edges between owners
+#ifdef VP_TSAN
+#define OCC_ORDER memory_order_relaxed
+#else
+#define OCC_ORDER memory_order_seq_cst
+#endif
 #include "fiber_spinlock.h"
 
 static fiber_spinlock_t sp;
@@ -57,7 +63,7 @@ static void spin_periodic(void) {
 }
 
 __attribute__((noinline)) static void vp_payload_spin_section(fb_slot_t* s, int via_try, uint32_t my_ticket) {
-  const int prev = atomic_fetch_add(&occ, 1);
+  const int prev = atomic_fetch_add_explicit(&occ, 1, OCC_ORDER);
   if (prev != 0)
     vp_violation("C18", "spin:two-owners", "trial %d: fiber %d acquired the spinlock (%s) while %d other(s) hold it", trial, s->id, via_try ? "trylock" : "lock", prev);
   const uint32_t serving = atomic_load(&sp.state.counters.ticket);
@@ -70,7 +76,7 @@ __attribute__((noinline)) static void vp_payload_spin_section(fb_slot_t* s, int 
   have_last = 1;
   plain_counter++;
   fb_spin(&s->rng, 30);
-  atomic_fetch_sub(&occ, 1);
+  atomic_fetch_sub_explicit(&occ, 1, OCC_ORDER);
 }
 
 static void* spin_fiber(void* a) {
